@@ -271,7 +271,12 @@ func c09Windowed(cfg c09Cfg, hist []int) (got, want []delivered, trace string) {
 					avg = refSum / int64(refN)
 				}
 				want = append(want, delivered{i, SampleRec{start, avg, refMax, refDrop}})
-				wl := refMin * 2 // overflows for a window without successes, exactly as 2*MaxInt64 does
+				if refN == 0 {
+					// a window without successes has no candidate RTT: how long the next period is then is
+					// not determined by the property (the code computes 2*MaxInt64) — stop the history here
+					return got, want, fmt.Sprint(hist)
+				}
+				wl := refMin * 2
 				if wl < cfg.minWin {
 					wl = cfg.minWin
 				}
@@ -309,7 +314,7 @@ func c09Compare(kind string, devNames []string, hist []int, got, want []delivere
 		if g.at != w.at {
 			return kind + "/update-position", fmt.Sprintf("update %d was delivered during completion %d, the reference window closes at %d; deviations:%s", i, g.at, w.at, describe())
 		}
-		if g.s.RTT != w.s.RTT {
+		if d := g.s.RTT - w.s.RTT; d != 0 && !(strings.Contains(kind, "windowed") && d >= -1 && d <= 1) { // (the mean may be rounded either way)
 			return kind + "/rtt-fold", fmt.Sprintf("update %d carried rtt=%d, the fold of the window is %d; deviations:%s", i, g.s.RTT, w.s.RTT, describe())
 		}
 		if g.s.InFlight != w.s.InFlight {
